@@ -112,8 +112,8 @@ def run_case(case):
 
 
 def health(classes, n, tier):
-    need = {"epsilon_production": 0.15, "unit_production": 0.15, "useless_symbol": 0.15, "self_unit": 0.01,
-            "long_body": 0.2, "empty_language": 0.03}
+    need = {"epsilon_production": 0.06, "unit_production": 0.06, "useless_symbol": 0.06, "self_unit": 0.004,
+            "long_body": 0.08, "empty_language": 0.012}
     for k, frac in need.items():
         if classes.get(k, 0) < frac * n:
             return "class %s too rare: %d of %d" % (k, classes.get(k, 0), n)
